@@ -83,6 +83,8 @@ type crashRun struct {
 	hazards []string
 	// desc describes the crash point being validated (cut operation, torn tail)
 	desc string
+	// secondCut: validate additionally cuts the power again right after the recovery
+	secondCut bool
 }
 
 // knownAbort ends the validation of a crash point after a tolerated known
@@ -267,6 +269,50 @@ func (c *crashRun) validate(open Opener, mem *vfs.MemFS, k int64, done, inflight
 	if mis := CheckNodeList(s.DB, chosen, true); mis != nil {
 		c.fail("crash-"+mis.Sig, k, "%s", mis.Msg)
 	}
+	if c.secondCut {
+		// recovery itself must be crash safe: the power goes off again right after the
+		// store has come back (nothing was written by a caller in between) and what was
+		// readable after the first recovery - at least every acknowledged save - must
+		// still be readable after the second one
+		mem.SetIgnoreSyncs(true)
+		func() {
+			defer func() { _ = recover() }()
+			_ = s.Close()
+		}()
+		mem.ResetToSyncedState()
+		mem.SetIgnoreSyncs(false)
+		labels["second-cut-right-after-recovery"] = true
+		s, err = OpenStore(mem, open)
+		if err != nil {
+			c.fail("reopen-after-second-crash-error", k, "reopen after a second power cut right after recovery failed: %v (acknowledged calls %d, in flight %d)", err, done, inflight)
+		}
+		for i := range acked.Reps {
+			if chosen.Reps[i].Removed {
+				continue
+			}
+			var first *Mismatch
+			matched := -1
+			for j, r := range c.candidates(done, inflight, i) {
+				mis := CheckReplica(s.DB, r, c.tr)
+				if mis == nil {
+					matched = j
+					break
+				}
+				if first == nil {
+					first = mis
+				}
+			}
+			if matched < 0 {
+				c.fail("second-crash-"+first.Sig, k, "after a second power cut right after the recovery from the first one an acknowledged save is not readable any more: acknowledged calls %d, in flight %d; versus acknowledged model: %s",
+					done, inflight, first.Msg)
+			}
+			if matched > 0 {
+				chosen.Reps[i] = c.candidates(done, inflight, i)[matched].clone()
+			} else {
+				chosen.Reps[i] = c.candidates(done, inflight, i)[0].clone()
+			}
+		}
+	}
 	// the recovered store must accept further writes: two appends per live
 	// replica, grouped per worker, then another reopen
 	for round := 0; round < 2; round++ {
@@ -396,7 +442,10 @@ func RunC10Crash(t *rapid.T, st *vfhelp.Stats, tr Traits, open Opener, cfg Crash
 		canonBase = r.ID() + canonBase
 	}
 	sampled := false
-	for _, k := range ks {
+	tornBudget := 4
+	for pi, k := range ks {
+		// every crash point in the thorough tier, every second one in the quick tier
+		c.secondCut = cfg.Exhaustive || pi%2 == 0
 		variants := []int{0}
 		mem, ctl, done, inflight, _ := c.runTo(open, k, false)
 		_, kind, _ := ctl.Cut()
@@ -407,6 +456,10 @@ func RunC10Crash(t *rapid.T, st *vfhelp.Stats, tr Traits, open Opener, cfg Crash
 			if len(torn.Data) > 1 {
 				variants = append(variants, rapid.IntRange(1, len(torn.Data)-1).Draw(t, "tornlen"))
 			}
+		} else if !cfg.Exhaustive && torn != nil && len(torn.Data) > 1 && tornBudget > 0 {
+			// quick tier: a few torn-tail variants per workload
+			tornBudget--
+			variants = append(variants, rapid.IntRange(1, len(torn.Data)-1).Draw(t, "tornlen"))
 		}
 		for vi, tornLen := range variants {
 			if vi > 0 {
@@ -418,6 +471,9 @@ func RunC10Crash(t *rapid.T, st *vfhelp.Stats, tr Traits, open Opener, cfg Crash
 				}
 			}
 			labels := map[string]bool{}
+			if tornLen > 0 {
+				c.secondCut = true
+			}
 			c.desc = fmt.Sprintf("cut at a %s operation", kind)
 			if !cut {
 				c.desc = "cut after the last operation"
